@@ -355,6 +355,7 @@ func nativeReplay(verifDir, pkg string, cases []replayCase) (map[string]*replayO
 	if err != nil {
 		return nil, "", err
 	}
+	defer os.Remove(ovPath)
 	os.MkdirAll(filepath.Join(scratchDir(verifDir), "out", "replay"), 0o755)
 	batch := filepath.Join(scratchDir(verifDir), "out", "replay", fmt.Sprintf("batch-%d-%d.json", os.Getpid(), time.Now().UnixNano()))
 	b, _ := json.Marshal(cases)
